@@ -341,7 +341,7 @@ def _worker_chunk(args):
   prop = _WORKER_PROP
   known = load_known_findings(prop.id)
   stats = BatchStats()
-  faulthandler.dump_traceback_later(int(os.environ.get("VERIF_HANG_S", "600")), exit=True)
+  faulthandler.dump_traceback_later(int(os.environ.get("VERIF_HANG_S", "420")), exit=True)
   try:
     for index in range(start, stop):
       if time.time() > deadline:
@@ -370,15 +370,24 @@ def _same(res, target_key):
   return res.violation is not None and res.violation.key() == target_key
 
 
-def shrink(prop, workload, s_log, target_key, budget=600, log=None):
+def shrink(prop, workload, s_log, target_key, budget=600, log=None,
+           wall=240.0):
   """
   Greedy delta debugging: first on the explicit workload (schedule re-used,
   then the all-zero schedule, then a few fresh ones), then on the S list.
+  Bounded by a number of re-executions and by wall-clock time (a violation
+  that is a hang costs a full hang timeout per re-execution).
   """
   spent = [0]
+  t_end = time.time() + wall
+  if "hang" in target_key:
+    budget = min(budget, 6)
 
   def attempt(wl, s_list=None, s_seed=None):
     spent[0] += 1
+    if time.time() > t_end:
+      spent[0] = budget          # out of time: stop shrinking
+      return None
     try:
       r = run_explicit(prop, wl, s_list=s_list, s_seed=s_seed)
     except HarnessError:
